@@ -132,7 +132,7 @@ func (x *Extractor) Canon(e ast.Expr) string {
 			return g
 		}
 		if tv, ok := x.Info.Types[v]; ok && tv.Value != nil {
-			return tv.Value.ExactString()
+			return constText(obj, tv.Value.ExactString())
 		}
 		if vr, ok := obj.(*types.Var); ok && !vr.IsField() {
 			t := vr.Type()
@@ -154,7 +154,7 @@ func (x *Extractor) Canon(e ast.Expr) string {
 	case *ast.SelectorExpr:
 		if _, isPkg := x.Info.Uses[identOf(v.X)].(*types.PkgName); isPkg {
 			if tv, ok := x.Info.Types[v]; ok && tv.Value != nil {
-				return tv.Value.ExactString()
+				return constText(x.Info.Uses[v.Sel], tv.Value.ExactString())
 			}
 			return identOf(v.X).Name + "." + v.Sel.Name
 		}
@@ -204,6 +204,19 @@ func trackedLocal(t types.Type) bool {
 	return false
 }
 
+// constText renders a reference to a declared constant: by name when it belongs to a named
+// integer type (an enumeration such as BinaryOperator), by value otherwise.
+func constText(obj types.Object, val string) string {
+	if k, ok := obj.(*types.Const); ok {
+		if n, ok := k.Type().(*types.Named); ok {
+			if b, ok := n.Underlying().(*types.Basic); ok && b.Info()&types.IsInteger != 0 {
+				return k.Name()
+			}
+		}
+	}
+	return val
+}
+
 func identOf(e ast.Expr) *ast.Ident {
 	id, _ := ast.Unparen(e).(*ast.Ident)
 	if id == nil {
@@ -230,7 +243,8 @@ func (x *Extractor) condGuards(c ast.Expr, taken bool) []guard {
 		}
 		// normalise == nil / == 0 into negated != forms
 		if v.Op == token.EQL {
-			if tv, ok := x.Info.Types[v.Y]; ok && (tv.IsNil() || (tv.Value != nil && tv.Value.ExactString() == "0")) {
+			_, yIsLit := ast.Unparen(v.Y).(*ast.BasicLit)
+			if tv, ok := x.Info.Types[v.Y]; ok && (tv.IsNil() || (yIsLit && tv.Value != nil && tv.Value.ExactString() == "0" && strings.HasPrefix(x.Canon(v.X), "len("))) {
 				zero := "nil"
 				op := "!="
 				if !tv.IsNil() {
@@ -240,7 +254,8 @@ func (x *Extractor) condGuards(c ast.Expr, taken bool) []guard {
 			}
 		}
 		if v.Op == token.NEQ {
-			if tv, ok := x.Info.Types[v.Y]; ok && tv.Value != nil && tv.Value.ExactString() == "0" {
+			_, yIsLit := ast.Unparen(v.Y).(*ast.BasicLit)
+			if tv, ok := x.Info.Types[v.Y]; ok && yIsLit && tv.Value != nil && tv.Value.ExactString() == "0" && strings.HasPrefix(x.Canon(v.X), "len(") {
 				return []guard{{x.Canon(v.X) + " > 0", !taken}}
 			}
 		}
